@@ -162,7 +162,7 @@ def _rule_memo(check, repo: Repo, mod) -> None:
                             if isinstance(d, ast.AST):
                                 stack.append(d)
             missing = sorted(dep - keyed)
-            check.decide(not missing, "C13-R5", f"{fn.name}: the cache `{g}` is keyed on every parameter the cached value depends on", f"key `{unparse(key)[:40]}`", mod.line(n),
+            check.decide(not missing, "C13-R5", f"{fn.name}: the cache `{g}` is keyed on every parameter the cached value depends on", f"key `{unparse(key)[:40]}`", mod.line(n), definite=True,
                          fail_detail=f"`{g}[{unparse(key)[:40]}]` caches a value that depends on parameter(s) {missing} which are not part of the key: a later call with another "
                                      f"{missing[0]} silently reuses the first one's value")
     check.holds("C13-R5", "imaging_utils: registration helpers keep no un-keyed module-level state", f"{n_fn} functions, module-level containers: {sorted(tops) or 'none'}", nontrivial=False)
@@ -347,14 +347,14 @@ def run(check, repo: Repo) -> None:
     for label, k in (("cross_correlation_shift", k_np), ("align_images_fourier_torch", k_al), ("cross_correlation_shift_torch", k_ct)):
         n_axis += 1
         for n, m in k.clashes:
-            check.violated("C13-R2", f"{label}: axis clash `{unparse(n)[:60]}`", m + " — row and column bookkeeping is mixed on non-square images", mod.line(n))
+            check.violated("C13-R2", f"{label}: axis clash `{unparse(n)[:60]}`", m + " — row and column bookkeeping is mixed on non-square images", mod.line(n), definite=True)
         if not k.clashes:
             check.holds("C13-R2", f"{label}: indices, wraps and extents stay on their own axis", where=mod.line(k.fn))
     x0, y0 = k_al.env.get("x0"), k_al.env.get("y0")
-    if x0 is None or y0 is None:
-        raise AnalysisError("align_images_fourier_torch: kinds of x0 / y0 not derivable")
-    check.decide(isinstance(x0, Comp) and x0.axis == ROW and isinstance(y0, Comp) and y0.axis == COL, "C13-R3",
-                 "align_images_fourier_torch: the flat peak index is unravelled row-major into (row, col)", f"{x0} {y0}", mod.line(ali),
+    if not (isinstance(x0, Comp) and isinstance(y0, Comp)):
+        raise AnalysisError(f"align_images_fourier_torch: kinds of x0 / y0 not derivable ({x0}, {y0})")
+    check.decide(x0.axis == ROW and y0.axis == COL, "C13-R3", definite=True,
+                 construct="align_images_fourier_torch: the flat peak index is unravelled row-major into (row, col)", detail=f"{x0} {y0}", where=mod.line(ali),
                  fail_detail=f"x0 is {x0}, y0 is {y0}")
     rt = [unparse(n.value) for n in ast.walk(ali) if isinstance(n, ast.Return)]
     xy = [unparse(d) for d in definitions(ali, "xy_shift") if isinstance(d, ast.AST)]
